@@ -21,6 +21,11 @@ import pickle
 CHOICES = ("done", "done-at-join", "late", "alive-lost", "alive-wrote")
 
 
+class ReplayDiverged(RuntimeError):
+    """A replayed prefix met an observation point it does not fit: the execution is not a function of the choices (some source of
+    nondeterminism is not owned by the harness). Always a harness error, never a violation - nobody may swallow it."""
+
+
 class Chooser:
     """Replay `prefix`, then take alternative 0; records the number of alternatives at every point."""
 
@@ -32,7 +37,8 @@ class Chooser:
         i = len(self.trace)
         c = self.prefix[i] if i < len(self.prefix) else 0
         if c >= n:
-            raise RuntimeError("replay diverged at point %d (%s): choice %d of %d" % (i, label, c, n))
+            self.diverged = True
+            raise ReplayDiverged("replay diverged at point %d (%s): choice %d of %d" % (i, label, c, n))
         self.trace.append((label, n, c))
         return c
 
@@ -45,6 +51,10 @@ def explore(run, maxdev=None):
         prefix = stack.pop()
         ch = Chooser(prefix)
         obs = run(ch)
+        if getattr(ch, "diverged", False):
+            raise ReplayDiverged("replay of prefix %r diverged (swallowed inside the execution)" % (prefix,))
+        if [c for _l, _n, c in ch.trace[:len(prefix)]] != list(prefix):
+            raise ReplayDiverged("replay of prefix %r ended after %d points" % (prefix, len(ch.trace)))
         yield [c for _l, _n, c in ch.trace], ch.trace, obs
         for i in range(len(prefix), len(ch.trace)):
             _l, n, _c = ch.trace[i]
